@@ -83,7 +83,10 @@ def t_correspondence(rep, rnd, n_cases):
     md_cases = [(y, m) for y in (1900, 2000, 2023, 2024) for m in range(-14, 15)]
     dts = []
     for _ in range(n_cases):
-        y = rnd.choice([1900, 1901, 1970, 2000, 2024, 9999, rnd.randint(1900, 9999)])
+        # the model's year loop costs ~60 us per year in vm_compute: keep most cases early
+        y = rnd.choice([1900, 1901, 1970, 2000, 2024, rnd.randint(1900, 2100), rnd.randint(1900, 2100)])
+        if rnd.random() < 0.03:
+            y = rnd.choice([9999, rnd.randint(2100, 9999)])
         m = rnd.randint(1, 12)
         d = rnd.randint(1, 28 if rnd.random() < 0.8 else (29 if m == 2 and D.is_leap_year(y) else 28))
         if rnd.random() < 0.15:
@@ -99,7 +102,7 @@ def t_correspondence(rep, rnd, n_cases):
     floats += [2.0, 1.5, 1.0, 0.0, -3.0, 2958465.0, 2958465.99999, 2958466.0, 25569.0, 36678.533755138895,
                60.0, 61.0, 59.99999999, 1e18, float("inf"), float("nan"), 2.9999999999, 366.0, 367.0, 368.0]
     ints = [2, 3, 60, 61, 366, 367, 368, 25569, 36526, 2958465, 2958466, 1, 0, -5] + \
-        [rnd.randint(2, 2958465) for _ in range(n_cases // 2)]
+        [rnd.randint(2, 80000) for _ in range(n_cases // 2)] + [rnd.randint(2, 2958465) for _ in range(6)]
 
     def dtenc(r):
         return [r.year, r.month, r.day, r.hour, r.minute, r.second, r.microsecond]
